@@ -300,11 +300,23 @@ def ddmin(items, fails, max_tests=400):
     return items
 
 
-class Proof:
-    """Result of the Coq side of a check."""
+def coqchk(prop, timeout=3300):
+    """Independent re-check of props/<prop>.vo and everything it depends on (thorough tier)."""
+    with Lock("coq"):
+        rc, out, dt = run(["coqchk", "-silent", "-o", "-Q", "theories", "Pk", "-Q", "props", "PkProps",
+                           "PkProps." + prop], cwd=COQ, timeout=timeout)
+    m = re.search(r"\* Axioms:(.*?)\n\s*\n\* ", out, re.S)
+    axioms = " ".join(m.group(1).split()) if m else "?"
+    return rc == 0, axioms, dt, out[-1500:]
 
-    def __init__(self, prop, extra_targets=()):
+
+class Proof:
+    """Result of the Coq side of a check. tier='thorough' additionally runs coqchk."""
+
+    def __init__(self, prop, extra_targets=(), tier=None):
         self.prop = prop
+        self.tier = tier
+        self.chk = None
         t0 = time.time()
         self.target = "props/%s.vo" % prop
         self.ok, self.log, _ = coq_make([self.target] + list(extra_targets))
@@ -315,10 +327,12 @@ class Proof:
         if self.ok:
             self.assum_ok, self.theorems, self.assum, self.assum_log = print_assumptions(prop)
         self.axioms = sorted({a for v in self.assum.values() if v.startswith("Axioms:") for a in [v]})
+        if tier == "thorough" and self.ok:
+            self.chk = coqchk(prop)
         self.seconds = time.time() - t0
 
     def good(self):
-        return self.ok and not self.gate and self.assum_ok
+        return self.ok and not self.gate and self.assum_ok and (self.chk is None or self.chk[0])
 
     def failure_text(self):
         if not self.ok:
@@ -326,6 +340,8 @@ class Proof:
             return "make %s failed: %s" % (self.target, m[:2] if m else self.log[-1500:])
         if self.gate:
             return "forbidden construct: " + "; ".join(self.gate)
+        if self.chk is not None and not self.chk[0]:
+            return "coqchk failed: " + self.chk[3]
         return "Print Assumptions failed: " + self.assum_log[-800:]
 
     def coverage(self):
@@ -338,6 +354,9 @@ class Proof:
             "property_theorems": self.theorems,
             "print_assumptions": self.assum,
             "coq_files": self.files,
+            "coqchk": ({"ok": self.chk[0], "axioms": self.chk[1], "seconds": round(self.chk[2], 1),
+                        "cmd": "coqchk -silent -o -Q theories Pk -Q props PkProps PkProps.%s" % self.prop}
+                       if self.chk is not None else "thorough tier only"),
         }
 
 
